@@ -28,6 +28,8 @@ type AdmitItem struct {
 	// Reset > 0: the states are those of a hashgraph that was Reset (fast-sync) to block Reset-1 and its frame
 	// of a full instance of the base DAG, with From..To further events of the base inserted on top
 	Reset int `json:"reset,omitempty"`
+	// Cache > 0: the in-memory store's cache size (default 10000)
+	Cache int `json:"cache,omitempty"`
 }
 
 type AdmitResult struct {
@@ -309,7 +311,7 @@ func init() {
 		var rframe *hg.Frame
 		var post []int
 		resetInst := func() *dag.Inst {
-			in := dag.Open(n, false, "", 10000)
+			in := dag.Open(n, false, "", cacheOf(it))
 			var b hg.Block
 			var f hg.Frame
 			jsonRoundTrip(rblock, &b)
@@ -320,7 +322,7 @@ func init() {
 			return in
 		}
 		if it.Reset > 0 {
-			full := dag.Open(n, false, "", 10000)
+			full := dag.Open(n, false, "", cacheOf(it))
 			for i := range evs {
 				if err, _ := full.Insert(evs[i].Fresh()); err != nil {
 					ev.Fail("admit: base insertion failed: %v", err)
@@ -380,7 +382,7 @@ func init() {
 					}
 					return
 				}
-				inst = dag.Open(n, false, "", 10000)
+				inst = dag.Open(n, false, "", cacheOf(it))
 				for i := 0; i < L; i++ {
 					e := evs[i].Fresh()
 					if err, _ := inst.Insert(e); err != nil {
@@ -616,7 +618,7 @@ func init() {
 				}
 				cont = post[L:]
 			} else {
-				twin = dag.Open(n, false, "", 10000)
+				twin = dag.Open(n, false, "", cacheOf(it))
 				for i := 0; i < L; i++ {
 					if err, _ := twin.Insert(evs[i].Fresh()); err != nil {
 						okc = false
@@ -744,4 +746,11 @@ func init() {
 		}
 		return rep.Finish()
 	}
+}
+
+func cacheOf(it AdmitItem) int {
+	if it.Cache > 0 {
+		return it.Cache
+	}
+	return 10000
 }
